@@ -749,6 +749,9 @@ pub fn select_row_ids<'a>(
             Ok(sequence.iter().collect())
         }
         ReadBatchParams::RangeFrom(from) => {
+            if from.start > sequence.len() as usize {
+                return Err(out_of_bounds_err(from.start as u32));
+            }
             let sequence = sequence.slice(from.start, sequence.len() as usize - from.start);
             Ok(sequence.iter().collect())
         }
